@@ -112,4 +112,18 @@ PROPS = {
                        'variable-length part is length prefixed and the codec names are prefix free (injective framing); cached and '
                        'uncached paths receive the same arguments',
     },
+    'C14': {
+        'level': 'other',
+        'extra': [('comment pre-pass', extras.comments_check)],
+        'needs_contracts': False,
+        'assumptions': ['the pyparsing grammar is insensitive to white space between tokens (foreign library driven by data: not '
+                        'reachable by a contract; multi-word keywords written as one Keyword literal are a known limitation)',
+                        're.finditer returns the leftmost non-overlapping matches'],
+        'trusted_base': ['reference automaton spec/x680.py::blank_comments as the reading of X.680 12.6'],
+        'bounded': [{'what': 'ignore_comments == reference automaton, exhaustively for every string up to the length bound over the '
+                             'alphabet - / * newline " a', 'counted_as_proved': False}],
+        'explanation': 'BOUNDED stand-in (the pre-pass is driven by re.finditer and string joins the engine cannot reach): exhaustive '
+                       'comparison with a reference automaton below a length bound, plus three data-flow obligations on parse_string '
+                       '(text reaches the pre-pass and the grammar unmodified, error line taken from the exception)',
+    },
 }
